@@ -31,7 +31,8 @@ CFG = dict(
          "(proposals with round-change and prepare justifications, round changes with justifications, prepares, commits, decided aggregates) plus the spec-test-kit "
          "pre/post-consensus partial-signature messages is fed in emission order to ONE fresh real validator at receive offsets 0 / 0.3 s / 1.5 s; oracle: verdict "
          "reject => violation; in the happy scenarios at offset 0: anything but accept => violation; every call is also diffed against the Lean model; "
-         "steady schedules: the SAME peer sees the same (validator, role, every signer) perform complete real duties over 6 (thorough: 9, n=4 and 7) consecutive "
+         "duty-handler runs in two variants: the validating node is / is NOT a member of the validator's committee (real handlers store the duties with "
+         "inCommittee = true / false; the store contents are announced to the model from the raw maps through a shim); steady schedules: the SAME peer sees the same (validator, role, every signer) perform complete real duties over 6 (thorough: 9, n=4 and 7) consecutive "
          "epochs, one duty per epoch at a slot moving inside the epoch and a variant with two duties in every other epoch, for the duty-count-limited roles "
          "(attester, aggregator, validator registration, voluntary exit): every message must be accepted",
     trusted_base=["the simulated network loops every broadcast back to its sender and delivers FIFO (or shuffled) — a mock of libp2p pubsub",
